@@ -3,14 +3,16 @@
 # Exit 0 iff every stable test passes. (6 further ctest targets of the pinned tree do not compile with the
 # installed g++ 12 and are not part of the baseline.)
 set -u
-cd /repo || exit 2
-[ -f _build/build.ninja ] || cmake -G Ninja -B _build -DCMAKE_BUILD_TYPE=RelWithDebInfo >/dev/null || exit 2
-cmake --build _build -- -k 0 >/tmp/baseline_build.log 2>&1
-ctest --test-dir _build -j16 --timeout 900 >/tmp/baseline_ctest.log 2>&1
-python3 - <<'PY'
+R=${BASELINE_REPO:-/repo}
+cd "$R" || exit 2
+[ -f _build/build.ninja ] || cmake -G Ninja -B _build -DCMAKE_BUILD_TYPE=RelWithDebInfo -DBLUETOE_BUILD_UNIT_TESTS=ON -DBUILD_TESTING=ON -DCMAKE_CXX_FLAGS=-Wno-error >/dev/null || exit 2
+cmake --build _build -- -k 0 >/tmp/baseline_build.$$.log 2>&1
+ctest --test-dir _build -j16 --timeout 900 >/tmp/baseline_ctest.$$.log 2>&1
+LOG=/tmp/baseline_ctest.$$.log python3 - <<'PY'
 import json,re,sys
 stable=[t.split("::")[0] for t in json.load(open("/root/.vp/BASELINE.json"))["stable_pass"]]
-log=open("/tmp/baseline_ctest.log").read()
+import os
+log=open(os.environ["LOG"]).read()
 passed=set(re.findall(r"Test\s+#\d+:\s+(\S+)\s+\.+\s+Passed",log))
 missing=[t for t in stable if t not in passed]
 print("baseline: %d/%d stable tests passed"%(len(stable)-len(missing),len(stable)))
